@@ -190,11 +190,11 @@ def frac(x):
 
 class C04(Spec):
     pid = "C04"
-    lean_targets = ("Earverif.Props.C04", "c04driver")
-    props_module = "Earverif.Props.C04"
+    lean_targets = ("Earverif.Props.C04", "Earverif.Props.C04Compose", "c04driver")
+    props_module = "Earverif.Props.C04Compose"
     theorems = tuple("Earverif.FileRender." + t for t in (
         "run_frame_count", "run_channel_count", "upmix_column", "dot_single", "overload_iff", "run_failed_iff",
-        "quantise_within_step", "quantise_clips"))
+        "quantise_within_step", "quantise_clips", "file_frames_eq_input"))
     trusted_base = (
         "model Earverif/Model/FileRender.lean: hand transliteration of OfflineRenderDriver.load_output_layout / "
         "render_input_file / run glue, Layout.with_speakers, PeakMonitor and the truncating quantiser over exact "
@@ -403,8 +403,9 @@ REGISTRY = dict(
     "prove for all block sequences, layouts and speakers lists: frames out = frames the renderer returned, one channel "
     "per loudspeaker or per output channel of the speakers file, routing/scaling by the speakers file, overload flag "
     "<=> some output sample exceeds full scale (any blocking, incl. empty blocks), failure <=> flag and fail_on_overload, "
-    "written code within one step of the exact sample and clipped outside [-1,1]. The renderer's blocks are a parameter "
-    "(C02/C03), float rounding is C16's. Tied to the code by running OfflineRenderDriver.run on generated BW64/ADM files "
+    "written code within one step of the exact sample and clipped outside [-1,1]. Composed with the renderer model of "
+    "C02/C03 (file_frames_eq_input): for every accepted session and every blocking of the input the written file has exactly "
+    "as many frames as the input. Otherwise the renderer's blocks are a parameter (C02/C03); float rounding is C16's. Tied to the code by running OfflineRenderDriver.run on generated BW64/ADM files "
     "and comparing the output file with the model fed the in-memory rendering; the full contract (same rate/bit depth/"
     "frame count, samples within one step, overload failure) is additionally evaluated directly on every run.",
     note="Trusted: Lean kernel, hand model of the glue + correspondence harness; argparse/YAML/filesystem not modelled; "
